@@ -243,6 +243,9 @@ def calc_spec(cfg):
              3: ['FIB', 'BIR', 'CTR', 'EIR', 'RINFL', 'PTR', 'RITC', 'GTR', 'inflrateconstruction']}[cfg['em']]
     s += [(f'economics.{r}', 'real', 0.001, 0.5) for r in rates]
     s += [('economics.AnnualLicenseEtc', 'real', -100, 100), ('economics.TaxRelief', 'real', 0, 100)]      # annual fees / tax relief are part of the reported O&M
+    # the electricity purchase rate (0 is an accepted rate) prices pumping / heat-pump electricity; the sale prices must not reach a levelized cost
+    s += [('surfaceplant.electricity_cost_to_buy', 'real', 0, 1)]
+    s += [(f'economics.{p_}StartPrice', 'real', 0, 100) for p_ in c04.products_of(cfg['kind'])]
     if cfg['em'] == 2:
         s += [('economics.discount_initial_year_cashflow', 'bool', None, None)]      # the NPV convention flag must not reach the levelized cost
     for p in c04.products_of(cfg['kind']):
